@@ -11,7 +11,13 @@ let squeeze_all v st outs =
   let (_, acc) = List.fold_left (fun (st, acc) n -> let (st', o) = x_xof_squeeze v st (nat_of_int n) in (st', acc @ [hex_of_bytes o])) (st, []) outs in
   String.concat "," acc
 
-let process (toks : string list) : string =
+(* a trailing RE:<seed> token asks the implementation to reach the operation through <op>_reinit after a prior
+   history on the same object; the model's answer is the same by definition (reinit = fresh init) *)
+let rec process (toks : string list) : string =
+  let n = List.length toks in
+  if n > 0 && (let l = List.nth toks (n - 1) in String.length l > 3 && String.sub l 0 3 = "RE:") then
+    process (List.filteri (fun i _ -> i < n - 1) toks)
+  else
   match toks with
   | ["PRF"; k; l; m; n] -> hex_of_bytes (x_prf_oneshot (bytes_of_hex k) (ni l) (bytes_of_hex m) (nat n))
   | ["PRFSPEC"; k; l; m; n] -> hex_of_bytes (x_spec_prf (bytes_of_hex k) (ni l) (bytes_of_hex m) (nat n))
